@@ -136,4 +136,98 @@ theorem stripEol_cr (d : Bytes) : stripEol (d ++ [13]) = d := by
   · rename_i heq; simp at heq; rw [← heq]; simp
   · rename_i h1 h2 h3; exact absurd rfl (h3 _)
 
+
+/-- The end-of-line forms a writer puts between the data and `EI`. -/
+def IsEol (sep : Bytes) : Prop := sep = [10] ∨ sep = [13, 10] ∨ sep = [13]
+
+/-- What `get_inline_data` returns once the raw body (everything before the end marker) is known. -/
+def finish (L : Option Nat) (body : Bytes) (n : Nat) : Option (Bytes × Nat) :=
+  match L with
+  | some len =>
+    if body.drop len = [10] ∨ body.drop len = [13, 10] ∨ body.drop len = [13] then some (body.take len, n)
+    else some (stripEol body, n)
+  | none => some (stripEol body, n)
+
+theorem run_eol_zero (data sep : Bytes) (hsep : IsEol sep) (hno : NoMarker (data ++ sep))
+    (hle : run 0 (data ++ sep) ≤ 2) : run 0 (data ++ sep) = 0 := by
+  have hlast : ∃ init c, data ++ sep = init ++ [c] ∧ (c = 10 ∨ c = 13) := by
+    rcases hsep with rfl | rfl | rfl
+    · exact ⟨data, 10, rfl, Or.inl rfl⟩
+    · exact ⟨data ++ [13], 10, by simp, Or.inl rfl⟩
+    · exact ⟨data, 13, rfl, Or.inr rfl⟩
+  obtain ⟨init, c, hinit, hc⟩ := hlast
+  have hp2 := scan_prefix init 0 [] [] 0 (by decide)
+    ⟨fun h => absurd h (by decide), fun h => absurd h (by decide)⟩
+    (by
+      intro pre post c' hc' heq
+      apply hno pre (post ++ [c]) c' hc'
+      rw [hinit]
+      simp only [List.nil_append] at heq
+      rw [heq]; simp)
+  rw [hinit, run_snoc] at hle ⊢
+  exact step_eol _ c hp2.2.2 hc hle
+
+/-- The scanner on `data EOL EI ws rest`, for any size hint. -/
+theorem getInlineDataLen_marker (L : Option Nat) (data sep rest : Bytes) (ws : UInt8) (hsep : IsEol sep)
+    (hws : isSpace ws = true) (hno : NoMarker (data ++ sep)) :
+    getInlineDataLen EI L (data ++ sep ++ EI ++ ws :: rest) = finish L (data ++ sep) ((data ++ sep).length + 3) := by
+  have hp := scan_prefix (data ++ sep) 0 [] (EI ++ ws :: rest) 0 (by decide)
+    ⟨fun h => absurd h (by decide), fun h => absurd h (by decide)⟩ (by simpa using hno)
+  obtain ⟨hscan, _, hle⟩ := hp
+  have hzero := run_eol_zero data sep hsep hno hle
+  unfold getInlineDataLen
+  have hinput : data ++ sep ++ EI ++ ws :: rest = (data ++ sep) ++ (EI ++ ws :: rest) := by simp
+  rw [hinput, hscan, hzero]
+  have : EI ++ ws :: rest = 69 :: 73 :: ws :: rest := rfl
+  rw [this, scan_marker ws rest _ hws]
+  simp only [Nat.zero_add, EI_length, Bool.false_eq_true, if_false]
+  have htake : List.take ((data ++ sep).length + 3) (data ++ sep ++ 69 :: 73 :: ws :: rest) =
+      (data ++ sep) ++ [69, 73, ws] := by
+    have : data ++ sep ++ 69 :: 73 :: ws :: rest = ((data ++ sep) ++ [69, 73, ws]) ++ rest := by simp
+    rw [this]
+    have hl : (data ++ sep).length + 3 = ((data ++ sep) ++ [69, 73, ws]).length := by simp <;> omega
+    rw [hl, List.take_left]
+  rw [htake]
+  have : ((data ++ sep) ++ [69, 73, ws]).length - (2 + 1) = (data ++ sep).length := by simp <;> omega
+  rw [this, List.take_left]
+  cases L <;> rfl
+
+/-- The same when `EI` is the last token of the content stream. -/
+theorem getInlineDataLen_marker_eof (L : Option Nat) (data sep : Bytes) (hsep : IsEol sep)
+    (hno : NoMarker (data ++ sep)) :
+    getInlineDataLen EI L (data ++ sep ++ EI) = finish L (data ++ sep) ((data ++ sep).length + 2) := by
+  have hp := scan_prefix (data ++ sep) 0 [] EI 0 (by decide)
+    ⟨fun h => absurd h (by decide), fun h => absurd h (by decide)⟩ (by simpa using hno)
+  obtain ⟨hscan, _, hle⟩ := hp
+  have hzero := run_eol_zero data sep hsep hno hle
+  unfold getInlineDataLen
+  rw [hscan, hzero]
+  have hm : scan EI 0 EI (0 + (data ++ sep).length) = some (0 + (data ++ sep).length + 2, true) :=
+    scan_marker_eof _
+  rw [hm]
+  simp only [Nat.zero_add, if_true, EI_length, Nat.add_zero]
+  have hl : (data ++ sep).length + 2 = ((data ++ sep) ++ EI).length := by simp [EI_length] <;> omega
+  rw [hl, List.take_length]
+  have h2 : ((data ++ sep) ++ EI).length - 2 = (data ++ sep).length := by simp [EI_length] <;> omega
+  rw [h2, List.take_left]
+  cases L <;> rfl
+
+/-- With the right size hint the data comes back exactly, whatever its last bytes are. -/
+theorem finish_exact (data sep : Bytes) (n : Nat) (hsep : IsEol sep) :
+    finish (some data.length) (data ++ sep) n = some (data, n) := by
+  unfold finish
+  simp only [List.drop_left, List.take_left]
+  exact if_pos hsep
+
+theorem finish_none_strip (data sep : Bytes) (n : Nat) (hsep : IsEol sep)
+    (hcr : ¬ (sep = [10] ∧ data.getLast? = some 13)) : finish none (data ++ sep) n = some (data, n) := by
+  unfold finish
+  simp only []
+  congr 2
+  rcases hsep with rfl | rfl | rfl
+  · exact stripEol_lf data (fun h => hcr ⟨rfl, h⟩)
+  · exact stripEol_crlf data
+  · exact stripEol_cr data
+
 end PdfVerif.InlineLemmas
+
